@@ -836,6 +836,28 @@ pub fn worker(args: &[String]) -> i32 {
                 continue;
             }
         };
+        // what a request / session created NOW starts from is what the environment says NOW
+        // (every 5th assignment: the default settings read the environment once more)
+        if n % 5 == 0 {
+            let now = format!("{settings:?}");
+            let via_session = guarded(|| attohttpc::Session::new().verif_snapshot().proxy_settings);
+            let via_request = guarded(|| attohttpc::get("http://a/").verif_snapshot().proxy_settings);
+            for (how, got) in [("Session::new()", via_session), ("attohttpc::get(..)", via_request)] {
+                if got.as_deref() != Ok(now.as_str()) {
+                    let a = assign(&d);
+                    let e = viol.entry("C11:env:stale-defaults").or_insert((u64::MAX, String::new(), Value::Null, 0));
+                    e.3 += 1;
+                    if n < e.0 {
+                        *e = (
+                            n,
+                            format!("{how} created after the environment was set to this assignment carries proxy settings {got:?}, ProxySettings::from_env() says {now}"),
+                            env_json(&a, "http://a/"),
+                            e.3,
+                        );
+                    }
+                }
+            }
+        }
         let k: Vec<u8> = (0..6).map(|i| kinds[i][d[i]]).collect();
         let all = ref_pair(k[0], k[1]);
         let w = [ref_chain(ref_pair(k[2], k[3]), all), ref_chain(ref_pair(k[4], k[5]), all)];
